@@ -371,3 +371,22 @@ def c11(out):
         run_sharded(out, exe, ["--prop", "C11", "--mode", "digest"] + args, vname, cases, shards=8, label=label, extra_env=env)
     _digest_compare(out, "C11", "base", "result-depends-on-stack-heap-or-optimisation")
     out.assumptions += ["MSan/memcheck shadow state is trusted; padding bytes and schedule entries beyond 'rounds' are excluded (the library legitimately never writes them)"]
+
+
+# --------------------------------------------------------------------- C13
+@check("C13")
+def c13(out):
+    out.rule = ("case index -> (init function of six, emulated CPU model of six, trapped x4 / real CPUID x1); in each case the init is called 24 times through an assembly trampoline with rcx, rdx, rsi, r8-r11, rbx, rax "
+                "set to 0,1,2,3,7,0x100,0xdeadbeef,~0 and random values, handle pre-filled 0x00/0xCC, stack painted; every CPUID executed is trapped (arch_prctl ARCH_SET_CPUID) and logged with its leaf and sub-leaf register; "
+                "oracle: selected back end (from the handle) == widest back end compiled in and supported by the served CPUID table + real XCR0, identical on every call, leaf-7 sub-leaf register independent of the "
+                "calling context, parallel_size behaves as the selected back end's batch. distinct = distinct (init, model, register context).")
+    builds = [("prod", 1, 1, n(out, 720, 18000))]
+    if out.tier == "thorough":
+        builds += [("clang", 1, 1, 3600), ("prod+O0", 1, 1, 3600), ("prod+NOAVX2", 1, 0, 1800), ("prod+NOSIMD", 0, 0, 1800), ("clang+O1", 1, 1, 1800), ("prod+O1", 1, 1, 1800)]
+    else:
+        builds += [("prod+O0", 1, 1, 360), ("clang", 1, 1, 360), ("prod+NOSIMD", 0, 0, 180)]
+    for vname, h128, h256, cases in builds:
+        exe = build_driver("drv_cpuid", ["drv_cpuid.c"] + HIST, vname)
+        run_sharded(out, exe, ["--has128", str(h128), "--has256", str(h256)], vname, cases)
+    out.assumptions += ["CPU models are emulations served through CPUID faulting on one physical CPU; XGETBV cannot be trapped, so 'OS has not enabled AVX state' is represented only through OSXSAVE=0",
+                        "expected back end = widest of {generic, vec128 if SSE2, vec256 if max leaf>=7 and leaf7.0 EBX[5] and OSXSAVE and AVX and XCR0[2:1]=11b} that the build compiled in"]
